@@ -25,6 +25,9 @@ pub fn section_name(s: Section) -> &'static str {
         Section::Variables => "Variables",
         Section::CatchTheBeat => "CatchTheBeat",
         Section::Mania => "Mania",
+        // (a section the harness does not know: the enum grew)
+        #[allow(unreachable_patterns)]
+        _ => "Section-unknown-to-the-harness",
     }
 }
 
